@@ -76,6 +76,7 @@ type Node struct {
 	ByName bool `json:"byname,omitempty"` // \k<name> / (?(name)...)
 
 	Ahead bool `json:"ahead,omitempty"`
+	Bare  bool `json:"bare,omitempty"` // KCondExpr with a positive look-ahead condition written (?(cond)yes|no)
 
 	On   string `json:"on,omitempty"` // option letters switched on/off by KOptGroup / KOptSet
 	Off  string `json:"off,omitempty"`
@@ -596,6 +597,25 @@ func (p *printer) node(n *Node) {
 		p.branch(n.Kids[1])
 		p.w(")")
 	case KCondExpr:
+		if c := n.Kids[0]; n.Bare && c.Ahead && !c.Neg {
+			// the bare spelling: the condition is an expression unless it reads as a group name or
+			// number, so a condition starting with a word character is wrapped
+			sub := &printer{po: p.po, root: p.root}
+			sub.node(c.Kids[0])
+			txt := sub.sb.String()
+			p.w("(?(")
+			if txt == "" || isWordByte(txt[0]) || txt[0] >= 0x80 || txt[0] == '?' {
+				p.w("(?:" + txt + ")")
+			} else {
+				p.w(txt)
+			}
+			p.w(")")
+			p.branch(n.Kids[1])
+			p.w("|")
+			p.branch(n.Kids[2])
+			p.w(")")
+			break
+		}
 		p.w("(?")
 		p.w(lookOpen(n.Kids[0]))
 		p.node(n.Kids[0].Kids[0])
@@ -625,7 +645,8 @@ func (p *printer) node(n *Node) {
 		case n.Sp == 2 && (n.E.X || p.po.RawX):
 			p.w("#" + n.Text + "\n")
 		default:
-			p.w("(?#" + n.Text + ")")
+			// this spelling ends at the first closing parenthesis
+			p.w("(?#" + strings.ReplaceAll(n.Text, ")", "") + ")")
 		}
 	default:
 		panic("gen: bad node kind")
@@ -642,6 +663,10 @@ func (p *printer) branch(k *Node) {
 		return
 	}
 	p.node(k)
+}
+
+func isWordByte(b byte) bool {
+	return b == '_' || (b >= '0' && b <= '9') || (b >= 'a' && b <= 'z') || (b >= 'A' && b <= 'Z')
 }
 
 func lookOpen(n *Node) string {
